@@ -507,7 +507,7 @@ func runC11(c *mon.Ctx) {
 		k.Distinct("size-boundary", target, len(gs), k.Index)
 		c11check(c, k, gs, forms, total)
 	})
-	req := []string{"composite:several-transformation-flags", "glyphs:65535", "zero-contour-glyph", "simple-decoded", "composite-checked", "loca-format-0", "loca-format-1",
+	req := []string{"harness-loca-format-1:glyphs-at-odd-offsets", "composite:several-transformation-flags", "glyphs:65535", "zero-contour-glyph", "simple-decoded", "composite-checked", "loca-format-0", "loca-format-1",
 		"harness-loca-format-0", "harness-loca-format-1", "composite:instructions", "composite:no-instructions",
 		"form:repeat-0", "form:repeat-1", "form:repeat-n", "form:repeat-255", "composite:instructions-flag-not-on-last-component", "form:flag-literal", "form:overlap-bit", "size<=65535", "size>131070",
 		"form:delta=+32767", "form:delta=-32768", "form:coordinate-at-int16-limit", "composite:instructions>=256-bytes", "simple:instructions>=256-bytes"}
@@ -608,6 +608,20 @@ func c11check(c *mon.Ctx, k *mon.Case, gs []*c11glyph, forms glyfref.Forms, tota
 			}
 		}
 		henc := &glyf.Encoded{GlyfData: glyfData, LocaData: loca, LocaFormat: format}
+		if format == 1 && k.Index%2 == 1 {
+			// the long format also allows glyphs at odd offsets: the same
+			// glyphs back to back without any padding
+			var tight []byte
+			var tl []byte
+			tl = binary.BigEndian.AppendUint32(tl, 0)
+			for _, g := range gs {
+				tight = append(tight, g.raw()...)
+				tl = binary.BigEndian.AppendUint32(tl, uint32(len(tight)))
+			}
+			henc = &glyf.Encoded{GlyfData: tight, LocaData: tl, LocaFormat: 1}
+			k.Class("harness-loca-format-1:glyphs-at-odd-offsets")
+		}
+		srcCopy := append([]byte(nil), henc.GlyfData...)
 		var dec glyf.Glyphs
 		if k.Guard("glyf.Decode", func() { dec, err = glyf.Decode(henc) }) {
 			return
@@ -622,6 +636,16 @@ func c11check(c *mon.Ctx, k *mon.Case, gs []*c11glyph, forms glyfref.Forms, tota
 				k.Fail("mismatch", fmt.Sprintf("spec-bytes:glyph-differs:kind%d", gs[i].kind), "glyph %d (kind %d, pad %d) decoded from harness-written bytes differs:\n got %+v\nwant %+v", i, gs[i].kind, gs[i].pad, dec[i], want[i])
 				break
 			}
+		}
+		// the table the glyphs were decoded from is the caller's: encoding
+		// the decoded glyphs again must leave it alone
+		if k.Guard("Glyphs.Encode (decoded from harness-written tables)", func() { dec.Encode() }) {
+			return
+		}
+		k.Eval()
+		if !bytes.Equal(srcCopy, henc.GlyfData) {
+			k.Fail("mismatch", "spec-bytes:source-table-modified-by-encode", "Glyphs.Encode on the glyphs decoded from a glyf table changed that table (first difference at byte %d of %d, loca format %d)\n%s", firstDiff(srcCopy, henc.GlyfData), len(srcCopy), henc.LocaFormat, desc())
+			return
 		}
 		k.Class(fmt.Sprintf("harness-loca-format-%d", format))
 	}
